@@ -287,6 +287,9 @@ class Runner
     static int64_t gen_key(uint32_t content, std::size_t field, std::size_t j, bool small_dom)
     {
         const uint64_t dom = small_dom ? 3 : 250;
+        // one element in four is "flat": every object has the same value, so that elements whose fields split the same
+        // number of objects differently (other fixed sizes / span lengths) have identical byte images
+        if (content % 4 == 3) return static_cast<int64_t>((content / 4) % (small_dom ? 2 : 4) + 1);
         return static_cast<int64_t>((uint64_t(content) * 7 + field * 13 + j * 3) % dom);
     }
 
